@@ -254,7 +254,11 @@ class FockOperationType(Enum):
 
         assert isinstance(num_quanta, int)
         assert isinstance(state, jnp.ndarray)
-        state = state / jnp.linalg.norm(state)
+        if state.ndim == 2 and state.shape[0] == state.shape[1] and state.shape[0] > 1:
+            # A density matrix has unit trace, its Frobenius norm is the purity
+            state = state / jnp.trace(state)
+        else:
+            state = state / jnp.linalg.norm(state)
 
         match self:
             case FockOperationType.Creation:
